@@ -1,41 +1,52 @@
 /-
-F413 — keypad keys delivered as key codes of their own (kitty keyboard protocol on the host side:
-`KeyKeyPad0` … `KeyKeyPadBegin`) are not forwarded at all unless the event carries text, and the child's keypad
-mode (DECKPAM / DECKPNM) selects nothing: `applicationKeymap` and `numericKeymap` of widgets/term/key.go are the
-same four editing keys, no keypad key is in any table, and the character part of `encodeXterm` only handles key
-codes below `unicode.MaxRune`.  So keypad Enter (never carries text), the keypad's navigation keys (NumLock off)
-and every keypad key with Shift / Ctrl write NOTHING; with NumLock on the digits arrive through their text in both
-modes.  The property: "the child's cursor-key and keypad modes select the encoding it asked for", "keys … arrive
-intact".  Recorded as a known finding (a repair is a table extension with design choices — which of text and
-application mode wins under NumLock —, and the source carries a TODO for it).
+F413 — FIXED (/repo 77b235a).  Before the fix, keypad keys delivered as key codes of their own (kitty keyboard
+protocol on the host side: `KeyKeyPad0` … `KeyKeyPadBegin`) were not forwarded at all unless the event carried
+text, and the child's keypad mode (DECKPAM / DECKPNM) selected nothing: no keypad key was in any table of
+widgets/term/key.go and the character part of `encodeXterm` only handles key codes below `unicode.MaxRune`.  So
+keypad Enter, the keypad's navigation keys and every keypad key with Shift / Ctrl wrote NOTHING.
+
+The repair is a table extension (`keypadApplicationMode`, `keypadNumericMode`, three `KeyKeyPadBegin` rows) and one
+look-up block at the head of `encodeXterm`.  This module keeps the regression statements: what was the witness of
+the violation (`keypad_keys_dropped`, `keypad_mode_selects_full_fails`) is now proved the other way round over the
+regenerated tables.  The general theorems are in `Props/C13Keypad.lean`.
 -/
-import VaxisModel.Props.C13
+import VaxisModel.Props.C13Keypad
 
 namespace VaxisModel.Witness.F413
 open VaxisModel.Model.Key VaxisModel.Model.TermKey VaxisModel.Spec.KeyEnc VaxisModel.Spec.TermInput
 open VaxisModel.Gen.Keys VaxisModel.Gen.TermKeys
 
-/-- "The keypad mode selects the encoding": an unmodified keypad key press without text is written as its
-    xterm report for the child's keypad / cursor-key modes. -/
+/-- "The keypad mode selects the encoding" as it was stated when the finding was recorded: an unmodified keypad key
+    press without text is written as its xterm report for the child's keypad / cursor-key modes.  (Num Lock off:
+    under Num Lock xterm overrides the keypad mode, see `Props.C13Keypad.keypad_mode_selects`.) -/
 def keypad_mode_selects_full : Prop :=
   ∀ (u : Uni) (k : Key) (pam ckm : Bool) (want : Str),
-    keypadDue k.keycode pam ckm = some want → xtermMods k = 0 → k.text = [] →
+    keypadDue k.keycode pam ckm = some want → xtermMods k = 0 → k.mods &&& numBit = 0 → k.text = [] →
     encodeXterm u k pam ckm = want
 
-/-- The two keypad maps of the source are identical (regenerated tables). -/
-theorem keypad_maps_identical : applicationKeymap = numericKeymap := by decide
+/-- The statement whose negation was the witness of F413 now holds. -/
+theorem keypad_mode_selects_full_holds : keypad_mode_selects_full :=
+  fun u k pam ckm want h1 h2 h3 h4 => VaxisModel.Props.C13Keypad.keypad_mode_selects u k pam ckm want h1 h2 h3 h4
 
-/-- Every keypad key the spec speaks about, in all four mode combinations: nothing is written. -/
-theorem keypad_keys_dropped :
+/-- Every keypad key the spec speaks about, in all four mode combinations: what is due is written, and it is never
+    nothing (the regenerated tables; this was `keypad_keys_dropped` with `== []`). -/
+theorem keypad_keys_not_dropped :
     ((keypadChars.map (·.1) ++ keypadNav.map (·.1)).all fun kc =>
       [(false, false), (false, true), (true, false), (true, true)].all fun md =>
-        (keypadDue kc md.1 md.2).isSome && (encodeXterm asciiUni { keycode := kc } md.1 md.2 == [])) = true := by
+        (match keypadDue kc md.1 md.2 with
+         | some want => encodeXterm asciiUni { keycode := kc } md.1 md.2 == want && want != []
+         | none => false)) = true := by
   decide +kernel
 
-theorem keypad_mode_selects_full_fails : ¬ keypad_mode_selects_full := by
-  intro h
-  have := h asciiUni { keycode := KeyKeyPadEnter } false false [13] (by decide) (by decide) rfl
-  revert this
+/-- The two old keypad maps of the source are still identical (they hold the four editing keys); the keypad mode
+    now selects through `keypadApplicationMode`: the two modes differ on every digit / operator / Enter key. -/
+theorem keypad_mode_distinguishes :
+    (keypadChars.all fun e =>
+      encodeXterm asciiUni { keycode := e.1 } true false != encodeXterm asciiUni { keycode := e.1 } false false) = true := by
+  decide +kernel
+
+/-- The witness input of the finding (keypad Enter, numeric mode): CR is written. -/
+theorem keypad_enter_written : encodeXterm asciiUni { keycode := KeyKeyPadEnter } false false = [13] := by
   decide +kernel
 
 end VaxisModel.Witness.F413
